@@ -58,7 +58,7 @@ class CaseGen:
             c = r.next()
         elif k < 7:
             c = r.choice([0, 1, M64, M64 - 1, 1 << 32, (1 << 32) - 1, 1 << 63, (1 << 16) - 1, 1 << 16, 0xFFFF0000FFFF])
-        elif k < 9 and used:
+        elif k < 9 and used and L < 15:        # (a refusal costs the model 256 DFS runs over 2^15 vertices)
             # same vertex pair as an existing column for every code parameter (permanent collision) or a near miss
             base = r.choice(used)
             sv = short_vertices(base, L)
@@ -122,7 +122,7 @@ class CaseGen:
             L, keep = r.choice(CONFIGS[:-1]) if r.below(70) else CONFIGS[-1]
             maxc = 1 << (L - 1)
             nops = r.range(1, min(14, maxc + 3))
-            ops, used = self.history(L, keep, nops, dup_rate=r.choice([0, 5, 25]))
+            ops, used = self.history(L, keep, nops, dup_rate=r.choice([0, 5, 25]) if L < 15 else r.choice([0, 0, 4]))
             out.append(self.finish(L, keep, ops, used))
         # 3. fill to exactly the column limit, then one more (single and group) – small L only
         for (L, keep) in CONFIGS[:4]:
@@ -312,22 +312,35 @@ def run(ctx):
                         'column codes are 64-bit; 4 <= logVertexCount <= 15; maxCodeParam = 255',
                         'mColumnCodeSet is modelled as a finite set (HashSet correctness is C01)',
                         'memory allocation failures inside Add (Reserve/SetCount/Insert) are not modelled']
+    import concurrent.futures as cf
+    pool = cf.ThreadPoolExecutor(max_workers=5)
+    fut = pool.submit(ctx.cxx, 'harness.cpp', 'harness')      # ~45 s of g++: overlap it with regen/prove/extract
     ctx.regen(GEN)
     ctx.prove()
-    harness = ctx.cxx('harness.cpp', 'harness')
+    have_model = bool(ctx.stages.get('prove', {}).get('ok') and ctx.stages.get('regen', {}).get('ok') and ctx.extract())
+    harness = fut.result()
     if harness is None:
         ctx.stage('build-harness', False, getattr(ctx, 'last_cxx_error', ''))
         return ctx.finish(rule=RULE)
     gen = CaseGen(ctx)
     units = gen.unit_cases(scale)
     cases = gen.cases(scale)
-    have_model = ctx.stages.get('prove', {}).get('ok') and ctx.stages.get('regen', {}).get('ok') and ctx.extract()
     if have_model:
         mism, _ = ctx.correspond('translator-validation', units, [harness], [ctx.model_exe])
         ctx.tie_obligations.append({'name': 'generated GetVertices/Ceil == real C++ on %d cases' % len(units), 'ok': not mism})
         for (i, c, a, b) in mism[:2]:
             ctx.violation('generated Gallina and the real function disagree', {'case': c, 'impl': a, 'model': b}, found_input=True)
-        mism, _ = ctx.correspond('model-vs-DataColumnList', cases, [harness], [ctx.model_exe])
+        # the model side is slow for logVertexCount 15: run 4 chunks in parallel, record one stage
+        ev0, tv0 = ctx.evaluations, ctx.traces_validated
+        chunks = [cases[k::4] for k in range(4)]
+        res = list(pool.map(lambda kc: ctx.correspond('model-vs-DataColumnList-%d' % kc[0], kc[1], [harness], [ctx.model_exe], stage=False),
+                            list(enumerate(chunks))))
+        mism = [m for (ms, _) in res for m in ms]
+        crashed = [r for (_, r) in res if r[0] != 0 or r[2] != 0]
+        ctx.evaluations = ev0 + len(cases); ctx.traces_validated = tv0 + len(cases) - len(mism)
+        ctx.stage('corr:model-vs-DataColumnList', not mism and not crashed,
+                  ('first disagreement: case %r impl=%r model=%r (%d total)' % (mism[0][1][:300], mism[0][2][:300], mism[0][3][:300], len(mism)) if mism else '') +
+                  (' harness/model exit codes %s %s' % (crashed[0][0], crashed[0][2]) if crashed else ''))
         ctx.tie_obligations.append({'name': 'extracted model == real DataColumnList (status, codeParam, sizes, offsets, lookups, Contains, addends table) on %d histories' % len(cases), 'ok': not mism})
         for (i, c, a, b) in mism[:2]:
             ctx.violation('model and implementation disagree', {'case': c, 'impl': a, 'model': b}, found_input=True)
